@@ -418,6 +418,9 @@ class Interp:
                 ls_ = hir.lit_str({'k': 'Lit', 'v': p['v']})
                 if ls_ is not None:
                     return ls_ == v
+                mc_ = re.match(r"^Char\('(.*)'\)$", p.get('v') or '', re.S)
+                if mc_:
+                    return (hir._unescape(mc_.group(1)) if hasattr(hir, '_unescape') else mc_.group(1)) == v
                 raise NoEval('literal pattern %s' % hir.pp_pat(p))
             v = v.get() if isinstance(v, Cell) else v
             return (-lv_ if p.get('neg') else lv_) == v
@@ -1081,6 +1084,24 @@ class Interp:
                 return L[A():]
             if nm == 'take':
                 return L[:A()]
+            if nm == 'collect' and (e.get('ty') or '').replace('std::result::', '').replace('std::option::', '').startswith(('Result<', 'Option<')):
+                t_ = (e.get('ty') or '').replace('std::result::', '').replace('std::option::', '')
+                out_ = []
+                for x in L:
+                    if t_.startswith('Result<'):
+                        if isinstance(x, tuple) and x and x[0] == 'Err':
+                            return x
+                        if isinstance(x, tuple) and x and x[0] == 'Ok':
+                            out_.append(x[1])
+                            continue
+                    else:
+                        if x == NONE:
+                            return NONE
+                        if _is_opt(x):
+                            out_.append(x[1])
+                            continue
+                    raise NoEval('collect of %r into %s' % (x, t_[:20]))
+                return ('Ok', out_) if t_.startswith('Result<') else some(out_)
             if nm in ('collect', 'collect_vec', 'sorted'):
                 t = e.get('ty') or ''
                 if 'Map' in t:
